@@ -58,12 +58,13 @@ Inductive aop :=
                      enclosing function returns ret (post-loop code included);
    NoCommit ret xs : the loop is left without a write (give-up); the enclosing
                      function returns ret after performing the atomic ops xs;
-   Restart         : a give-up block jumped back before the loop (goto retry);
+   Restart xs      : a give-up block performed xs and jumped back before the loop (goto retry);
+   NoCommit 2 xs   : (loop-only translations) the give-up block jumped forward, past the loop;
    Crash           : a path that ends in DISPATCH_*_CRASH / __builtin_trap. *)
 Inductive rmw_outcome :=
 | Commit (new : Z) (ret : Z)
 | NoCommit (ret : Z) (extra : list aop)
-| Restart
+| Restart (extra : list aop)
 | Crash (tag : Z).
 
 (* an atomic site of a C function: line is informational only *)
